@@ -67,6 +67,15 @@ type Invoke struct {
 	Init        []GhostUpdate
 }
 
+// Iterate: higher-order step of an (assumed) callee contract: the closure literal passed for Param is called once
+// per $i in [0, Count), in order, with the given argument expressions (over the callee's names and $i).
+type Iterate struct {
+	Param string
+	Args  []SExpr
+	Count SExpr
+	Src   string
+}
+
 type OnWrite struct {
 	TypeName, Field, Var string
 	Updates            []GhostUpdate
@@ -115,6 +124,8 @@ type FuncContract struct {
 	GhostUpd  []GhostUpdate
 	SplitForall bool   // splitforall: prove `forall x :: A && B` as one obligation per conjunct
 	Hide      []string // hide FAMILY: axiom families (e.g. card) left out of this function's queries
+	Iterates  []Iterate // iterates PARAM(ARG, ...) count EXPR: the callee calls the closure passed as PARAM for $i = 0..count-1
+	IterInv   map[string][]Clause // iterloop CALLEE invariant EXPR (caller side; $i = iterations completed)
 	Invokes   []Invoke // invokes PARAM(NAME) [init G := E; ...]: the callee runs the closure passed as PARAM once, on a fresh object NAME
 	GhostSrc  []string
 	Trusts    []Clause
@@ -146,7 +157,9 @@ type ContractSet struct {
 	OnSends  []*OnSend
 	Opaque   []string
 	Transparent []string
-	Funcs    map[string]*FuncContract
+	TypedRefs bool     // typedrefs: allocation and typed reads record the dynamic type of references (typedrefs.go)
+	InlineObj []string // inlineobj Type.field: struct-valued field modelled as a fixed sub-object (inlineobj.go)
+	Funcs   map[string]*FuncContract
 	FuncOrd  []string
 }
 
@@ -154,7 +167,7 @@ func newContractSet(pkg string) *ContractSet {
 	return &ContractSet{PkgPath: pkg, Preds: map[string]*PredDef{}, Fns: map[string]*SpecFn{}, Funcs: map[string]*FuncContract{}}
 }
 
-var clauseKW = map[string]bool{"invokes": true, "hide": true, "splitforall": true, "ghost": true, "pred": true, "fn": true, "axiom": true, "lemmadef": true, "onwrite": true, "onsend": true,
+var clauseKW = map[string]bool{"typedrefs": true, "inlineobj": true, "iterates": true, "iterloop": true, "invokes": true, "hide": true, "splitforall": true, "ghost": true, "pred": true, "fn": true, "axiom": true, "lemmadef": true, "onwrite": true, "onsend": true,
 	"opaque": true, "transparent": true, "lenient": true, "callsite": true, "func": true, "params": true, "requires": true, "ensures": true, "modifies": true, "loop": true, "use": true,
 	"inline": true, "assumed": true, "overflow": true, "safety": true, "pure": true, "effect": true, "watch": true, "trusts": true}
 
@@ -284,6 +297,12 @@ func loadContractFile(path string, prefixed bool, pkgPath string) (*ContractSet,
 		case "transparent":
 			cs.Transparent = append(cs.Transparent, rc.text)
 			cur = nil
+		case "typedrefs":
+			cs.TypedRefs = true
+			cur = nil
+		case "inlineobj":
+			cs.InlineObj = append(cs.InlineObj, strings.Fields(rc.text)...)
+			cur = nil
 		case "pred":
 			i := strings.Index(rc.text, ":=")
 			if i < 0 {
@@ -375,11 +394,13 @@ func loadContractFile(path string, prefixed bool, pkgPath string) (*ContractSet,
 			cur = nil
 		case "func":
 			key := strings.TrimSpace(rc.text)
+			std := strings.HasPrefix(key, "std:") // std:sync.Pool.Get – a standard-library key (no slash in its import path)
+			key = strings.TrimPrefix(key, "std:")
 			if _, dup := cs.Funcs[key]; dup {
 				return nil, fmt.Errorf("%s: duplicate contract for %s", where, key)
 			}
 			cur = &FuncContract{Key: key, File: path, Line: rc.line, LoopInv: map[int][]Clause{}}
-			if strings.Contains(key, "/") {
+			if strings.Contains(key, "/") || std {
 				cur.Absolute = true
 			}
 			cs.Funcs[key] = cur
@@ -438,6 +459,39 @@ func loadContractFile(path string, prefixed bool, pkgPath string) (*ContractSet,
 				cur.SplitForall = true
 			case "hide":
 				cur.Hide = append(cur.Hide, strings.Fields(rc.text)...)
+			case "iterates":
+				i := strings.Index(rc.text, " count ")
+				if i < 0 {
+					return nil, fmt.Errorf("%s: iterates PARAM(ARG, ...) count EXPR", where)
+				}
+				ce, err := parseSpec(rc.text[:i])
+				if err != nil {
+					return nil, fmt.Errorf("%s: %v", where, err)
+				}
+				ic, ok := ce.(*SCall)
+				if !ok {
+					return nil, fmt.Errorf("%s: iterates PARAM(ARG, ...) count EXPR", where)
+				}
+				cnt, err := parseSpec(rc.text[i+7:])
+				if err != nil {
+					return nil, fmt.Errorf("%s: %v", where, err)
+				}
+				cur.Iterates = append(cur.Iterates, Iterate{Param: ic.Fun, Args: ic.Args, Count: cnt, Src: rc.text})
+			case "iterloop":
+				i := strings.Index(rc.text, " invariant ")
+				if i < 0 {
+					return nil, fmt.Errorf("%s: iterloop CALLEE invariant EXPR", where)
+				}
+				callee := strings.TrimSpace(rc.text[:i])
+				src := strings.TrimSpace(rc.text[i+11:])
+				ie, err := parseSpec(src)
+				if err != nil {
+					return nil, fmt.Errorf("%s: %v", where, err)
+				}
+				if cur.IterInv == nil {
+					cur.IterInv = map[string][]Clause{}
+				}
+				cur.IterInv[callee] = append(cur.IterInv[callee], Clause{ie, src, rc.line})
 			case "invokes":
 				txt := rc.text
 				var init []GhostUpdate
